@@ -75,12 +75,14 @@ SCANNER = "bufio.Scanner: yields each line without terminator; a line over 64 Ki
 prop("C10", ["prims.go", "c10.go"],
      [run("stderr", "harnessC10", ["single", "chunked", "hclog-json", "text"],
           quick={"bound": "one stderr line of symbolic length <= 3 buffer-fulls, buffer size symbolic in [16, 2^20], terminator LF/CRLF/none; JSON classes with one extra key; text prefix classes"}),
+      run("stderr-two-lines", "harnessC10two", ["first-line-single", "first-line-chunked", "first-line-exact-fit", "hclog-json", "text", "inside-panic-trace"],
+          quick={"bound": "two stderr lines: the first a text line (plain / panic: / [LEVEL]) of symbolic length <= 2 buffers (shorter than, exactly, longer than the buffer), the second a one-piece line over the full class space; buffer size symbolic in [16, 2^20]"}),
       run("stdout", "harnessC10stdout", ["after-handshake"], files=["prims.go", "c10b.go"],
           quick={"bound": "whole Client.Start with a valid handshake line followed by three stdout lines, the first of symbolic length <= 2^20 (either side of the 64 KiB Scanner limit)"}),
       ],
      [READLINE, JSONM, SCANNER, STR, "hclog.Logger is a recording harness implementation; hclog.LevelFromString runs from its real SSA"],
      ["bufio.Reader.ReadLine", "encoding/json.Unmarshal", "time.Parse", "hclog.Logger"],
-     "more than one stderr line per run (quick); lines longer than 3 buffers; the bytes inside a chunk (opaque views)",
+     "more than two stderr lines per run; lines longer than 3 buffers; the bytes inside a chunk (opaque views)",
      text="Bounded symbolic model checking of the real logStderr/parseJSON/flattenKVPairs over one stderr line of symbolic length and a symbolic log-buffer size (so shorter/equal/longer-than-buffer and CRLF/unterminated cases are solver-chosen), and over the JSON value classes of the @-fields: verbatim copy to the Stderr writer, level and message of the emitted record, and no panic.",
      note="Bound: one line <= 3 buffers; buffer 16..2^20. Contracts: ReadLine chunking function, JSON value classes, Scanner 64 KiB rule. " + ENGINE)
 
